@@ -24,7 +24,7 @@ func RunPath(p *Program, s *smt.Solver, entry *ssa.Function, prefix []Decision, 
 		// the virtual clock starts at a realistic wall-clock reading (ns since 1970), far from the zero time.Time
 		now: 1_700_000_000_000_000_000,
 	}
-	m.Res = &RunResult{Reached: map[string]int{}, Asserts: map[string]int{}, BySolver: map[string]int{}, Unknown: map[string]int{}, Funcs: map[string]int{}, Forks: map[string]int{}, Cross: map[string]int{}}
+	m.Res = &RunResult{Blocks: map[*ssa.Function][]bool{}, Reached: map[string]int{}, Asserts: map[string]int{}, BySolver: map[string]int{}, Unknown: map[string]int{}, Funcs: map[string]int{}, Forks: map[string]int{}, Cross: map[string]int{}}
 	s.Reset()
 	g0 := &goroutine{id: 0, resume: make(chan bool)}
 	m.gs = []*goroutine{g0}
@@ -84,6 +84,7 @@ type HarnessSummary struct {
 	Reached     map[string]int
 	Forks       map[string]int
 	Funcs       map[string]bool
+	Blocks      map[*ssa.Function][]bool
 	Steps       int
 	Problems    []string // engine errors, unwind failures, deadlocks (first few)
 	Truncated   bool
@@ -221,6 +222,21 @@ func (s *HarnessSummary) absorb(r *RunResult) {
 	}
 	for k := range r.Funcs {
 		s.Funcs[k] = true
+	}
+	if s.Blocks == nil {
+		s.Blocks = map[*ssa.Function][]bool{}
+	}
+	for fn, cov := range r.Blocks {
+		dst := s.Blocks[fn]
+		if dst == nil {
+			dst = make([]bool, len(cov))
+			s.Blocks[fn] = dst
+		}
+		for i, c := range cov {
+			if c {
+				dst[i] = true
+			}
+		}
 	}
 	for i := range r.Violations {
 		v := r.Violations[i]
